@@ -205,6 +205,13 @@ struct Found {
     reason: String,
 }
 
+static MEM_STOP: AtomicBool = AtomicBool::new(false);
+
+/// resident set size of this process in MiB
+fn rss_mib() -> u64 {
+    std::fs::read_to_string("/proc/self/statm").ok().and_then(|s| s.split_whitespace().nth(1).and_then(|p| p.parse::<u64>().ok())).map(|pages| pages * 4096 / (1024 * 1024)).unwrap_or(0)
+}
+
 fn violations_for<'a>(out: &'a Outcome, id: &str) -> Vec<&'a world::Violation> {
     out.violations.iter().filter(|v| v.prop == id).collect()
 }
@@ -242,6 +249,14 @@ fn run_worker(id: &str, oracle_id: &str, seed: u64, worker: u64, cases: u32, sto
         if counting.get() {
             let mut st = stats_cell.borrow_mut();
             st.evaluations += 1;
+            if st.evaluations % 8192 == 0 && worker == 0 {
+                // abandoned executions cannot give their memory back: stop (inconclusive) long before the machine runs out
+                let limit = std::env::var("DV_MAX_RSS_MIB").ok().and_then(|v| v.parse().ok()).unwrap_or(24 * 1024);
+                if rss_mib() > limit {
+                    MEM_STOP.store(true, Ordering::Relaxed);
+                    stop.store(true, Ordering::Relaxed);
+                }
+            }
             st.steps += out.steps;
             progress.fetch_add(1, Ordering::Relaxed);
             let nt = profiles::nontrivial(&prof_id, &case, &out);
@@ -719,6 +734,10 @@ fn cmd_check(id: &str, tier: &str, cases_override: Option<u32>, workers: usize, 
     if let Some(l) = violation_line {
         println!("{}", l);
         return 1;
+    }
+    if MEM_STOP.load(Ordering::Relaxed) {
+        println!("INCONCLUSIVE: the memory budget of this process was reached after {} cases; no violation was seen up to that point", agg.evaluations);
+        return 2;
     }
     0
 }
